@@ -291,8 +291,14 @@ class Text:
                         cur.append(('lit', c))
             elif p[2].get('sepchar'):
                 if sep in ('/', '\\'):
-                    raise Unsupported('split on a separator while a symbolic separator is present')
-                cur.append(p)
+                    # a character that is '/' or '\\': decide which (fork); it either separates or is ordinary text
+                    if bool(mkbool(p[1] == z3.StringVal(sep))):
+                        parts.append(mk(cur))
+                        cur = []
+                    else:
+                        cur.append(('lit', '\\' if sep == '/' else '/'))
+                else:
+                    cur.append(p)
             elif sep in p[2].get('nosep', ''):
                 cur.append(p)
             else:
